@@ -206,6 +206,21 @@ class Fn:
                     raise Unsupported("unary minus on non-int")
                 return f"(-{c})", "int"
             raise Unsupported("unary op")
+        if isinstance(e, ast.BoolOp) and isinstance(e.op, ast.And) and isinstance(e.values[0], ast.Compare) \
+                and len(e.values[0].ops) == 1 and isinstance(e.values[0].ops[0], ast.IsNot) \
+                and isinstance(e.values[0].left, ast.Name) and isinstance(e.values[0].comparators[0], ast.Constant) \
+                and e.values[0].comparators[0].value is None \
+                and isinstance(env.get(e.values[0].left.id), tuple) and env[e.values[0].left.id][0] == "opt":
+            # `x is not None and P(x)`: P is evaluated only when x is not None, with x narrowed
+            var = e.values[0].left.id
+            env2 = dict(env)
+            env2[var] = env[var][1]
+            rest = e.values[1] if len(e.values) == 2 else ast.BoolOp(op=ast.And(), values=e.values[1:])
+            sub: list[str] = []
+            code = self.truthy_bool_only(rest, env2, sub)
+            if sub:
+                raise Unsupported("short-circuit operand that can raise")
+            return f"(match {lname(var)} with | none => false | some {lname(var)} => {code})", "bool"
         if isinstance(e, ast.BoolOp):
             parts = []
             for i, v in enumerate(e.values):
@@ -939,7 +954,7 @@ class Fn:
                    or ast.unparse(st).split("\n")[0].strip() == until[0]]
             if len(cut) != 1:
                 raise Unsupported(f"statement {until[0]!r} that ends the translated prefix not found exactly once")
-            ret = ast.parse("return (" + ", ".join(until[1]) + ")").body[0]
+            ret = ast.parse("return (" + ", ".join(until[1]) + ")" if until[1] else "return").body[0]
             fdef = ast.FunctionDef(name=fdef.name, args=fdef.args, body=fdef.body[:cut[0]] + [ret], decorator_list=[],
                                    returns=None, type_comment=None, lineno=fdef.lineno, col_offset=0)
             ast.fix_missing_locations(fdef)
@@ -1000,6 +1015,28 @@ TARGETS = [
      "attrs": {"self.num_rows": ("num_rows", "int"), "self.num_cols": ("num_cols", "int")},
      "until": ("rows = self.rows()", ["min_row", "max_row", "min_col", "max_col"]),
      "assume": "only the defaulting and bounds-checking prefix is translated"},
+    {"group": "Edit", "module": "numbers_parser.document", "qualname": "Table.add_row", "lean": "add_row_args",
+     "params": [("table_rows", "int"), ("num_rows", "int"), ("start_row", ("opt", "int"))], "ret": "int",
+     "attrs": {"self.num_rows": ("table_rows", "int")},
+     "until": ("self.num_rows += num_rows", ["start_row"]),
+     "assume": "only the argument checks and the defaulting of start_row (everything before `self.num_rows += num_rows`) are "
+               "translated; self.num_rows is the parameter table_rows"},
+    {"group": "Edit", "module": "numbers_parser.document", "qualname": "Table.add_column", "lean": "add_column_args",
+     "params": [("table_cols", "int"), ("num_cols", "int"), ("start_col", ("opt", "int"))], "ret": "int",
+     "attrs": {"self.num_cols": ("table_cols", "int")},
+     "until": ("self.num_cols += num_cols", ["start_col"]),
+     "assume": "only the argument checks and the defaulting of start_col are translated"},
+    {"group": "Edit", "module": "numbers_parser.document", "qualname": "Table.delete_row", "lean": "delete_row_args",
+     "params": [("table_rows", "int"), ("num_rows", "int"), ("start_row", ("opt", "int"))], "ret": "none",
+     "attrs": {"self.num_rows": ("table_rows", "int")},
+     "until": ("if start_row is not None:\n    del self._data[start_row:start_row + num_rows]\nelse:\n"
+               "    del self._data[self.num_rows - num_rows:]", []),
+     "assume": "only the argument checks (everything before the first `del`) are translated"},
+    {"group": "Edit", "module": "numbers_parser.document", "qualname": "Table.delete_column", "lean": "delete_column_args",
+     "params": [("table_cols", "int"), ("num_cols", "int"), ("start_col", ("opt", "int"))], "ret": "none",
+     "attrs": {"self.num_cols": ("table_cols", "int")},
+     "until": ("for row in range(self.num_rows):", []),
+     "assume": "only the argument checks (everything before the loop over the rows) are translated"},
     {"group": "NumFmt", "module": "numbers_parser.cell", "qualname": "_format_fraction_parts_to", "lean": "format_fraction_parts_to",
      "params": [("whole", "int"), ("numerator", "int"), ("denominator", "int")], "ret": "str"},
     {"group": "NumFmt", "module": "numbers_parser.cell", "qualname": "_invert_bit_str", "lean": "invert_bit_str",
@@ -1088,7 +1125,7 @@ def find_def(module: str, qualname: str) -> ast.FunctionDef:
     return node
 
 
-GROUP_IMPORTS = {"A1": ["NumbersModel.Model.A1"], "Items": [], "NumFmt": [], "Addr": [], "DateFmt": [], "Duration": [], "Dec128": [], "Merge": []}
+GROUP_IMPORTS = {"A1": ["NumbersModel.Model.A1"], "Items": [], "NumFmt": [], "Addr": [], "DateFmt": [], "Duration": [], "Dec128": [], "Merge": [], "Edit": []}
 
 
 def generate(group: str) -> tuple[str, dict]:
